@@ -109,10 +109,17 @@ def make_world(extra_comp_nan=()):
     return fluid, spec, f, t
 
 
-def world_contracts(fluid):
+def world_contracts(fluid, stage="hydraulics"):
     def c_component_array(ev, args, kwargs):
+        # contract of get_component_array (C03 unit component_array): aligned with the active pit block of the stage only
+        # for only_active=True and the mode of that stage
         net = args[0]
-        return net.items["_pit"]["components"][args[1]]
+        ctype = kwargs.get("component_type", args[2] if len(args) > 2 else "branch")
+        mode = kwargs.get("mode", args[3] if len(args) > 3 else "hydraulics")
+        only_active = kwargs.get("only_active", args[4] if len(args) > 4 else True)
+        if only_active is True and mode == stage and ctype == "branch" and args[1] == "heat_consumer":
+            return net.items["_pit"]["components"][args[1]]
+        return K.sym_pit("consumer_array_not_aligned_with_the_active_block", z3.Int("n_unaligned"), NCC)
 
     def c_cp(ev, args, kwargs):
         fl, npit, bp = args
@@ -142,7 +149,8 @@ def world_req(sp, fluid, f, t):
 
 def run_method(ctx, name):
     fluid, spec, f, t = make_world()
-    paths = T.run_paths(ctx, HC + ":HeatConsumer." + name, spec.build, contracts=world_contracts(fluid))
+    stage = "heat_transfer" if name.endswith("_thermal") else "hydraulics"
+    paths = T.run_paths(ctx, HC + ":HeatConsumer." + name, spec.build, contracts=world_contracts(fluid, stage))
     spec.build()
     return fluid, spec, f, t, paths
 
@@ -469,3 +477,11 @@ def thermal_kernel_np(ctx):
 def thermal_kernel_nb(ctx):
     import contracts.C10 as C10
     C10._kernel(ctx, C10.TBN + ":derivatives_thermal_numba")
+
+
+@unit("C11", "component_array", functions=["pandapipes.component_models.component_toolbox:get_component_array"], engine="E3")
+def component_array_c11(ctx):
+    """the consumer array rows used by the four adaption methods are those of the active pit block of the same stage
+    (shared with C03)"""
+    from contracts.C03 import component_array
+    component_array(ctx)
